@@ -29,16 +29,16 @@ var Catalogue = []ReSpec{
 	{`\d+`, []string{"5", "123"}, []string{"x", ""}},
 	{`[\w]+`, []string{"a_1", "Z", "ab"}, []string{"-", ""}},
 	{`[0-9]*`, []string{"", "12"}, []string{"a"}},
-	{`.*x`, []string{"x", "abx", "%41x"}, []string{"xa", ""}},
+	{`.*x`, []string{"x", "abx", "%41x"}, []string{"xa", "", "\nx", "a\nx"}},
 	{`(x|y)+`, []string{"xy", "x", "yyx"}, []string{"z", ""}},
 	{`v[0-9]`, []string{"v1", "v9"}, []string{"v", "v12"}},
 	{`[a-z]+`, []string{"abc", "q", "ab"}, []string{"1", "A", ""}},
 	{`(ab)*c`, []string{"c", "abc", "ababc"}, []string{"ab", ""}},
 	{`[A-Z][a-z]*`, []string{"A", "Hello"}, []string{"hello", ""}},
-	{`a.c`, []string{"abc", "a.c", "a%c"}, []string{"ac", "abbc"}},
+	{`a.c`, []string{"abc", "a.c", "a%c"}, []string{"ac", "abbc", "a\nc"}},
 	{`\w{2}`, []string{"ab", "a1"}, []string{"a", "abc"}},
 	{`(a(b(c)))`, []string{"abc"}, []string{"ab", ""}},
-	{`.+`, []string{"a", "ab", "%41", "a.b", "1"}, []string{""}},
+	{`.+`, []string{"a", "ab", "%41", "a.b", "1"}, []string{"", "\n", "a\nb"}},
 	{`(?i)ab`, []string{"ab", "AB", "Ab"}, []string{"a", "abc"}},
 	{`a{2}`, []string{"aa"}, []string{"a", "aaa"}},
 	{`x?`, []string{"", "x"}, []string{"xx", "y"}},
@@ -56,6 +56,11 @@ var Catalogue = []ReSpec{
 	{`((ab|cd))`, []string{"ab", "cd"}, []string{"a", "abcd"}},
 	{`(((x)))y`, []string{"xy"}, []string{"x", "y"}},
 	{`((a)|(b))+`, []string{"a", "ab", "bba"}, []string{"", "c"}},
+	// the dot does not match a line break, white-space classes do - also inside the user's own groups
+	{`(.+)\.(txt|md)`, []string{"a.txt", "x.y.md"}, []string{"a\nb.txt", "txt", ".md"}},
+	{`v(.)(\.[0-9])?`, []string{"v1", "vx.2"}, []string{"v\n", "v", "v\n.1"}},
+	{`\s*x`, []string{"x", " x", "\nx"}, []string{"y", "x "}},
+	{`\Sx`, []string{"ax", "1x"}, []string{" x", "\nx", "x"}},
 	// Unicode classes (Perl syntax with Unicode groups, as regexp.Compile accepts)
 	{`\pL+`, []string{"ab", "é", "Ω"}, []string{"1", ""}},
 	{`[\pL\pN_]+`, []string{"a1_", "é9"}, []string{"-", ""}},
